@@ -4,7 +4,8 @@ in pfhedge.stochastic and of cast_state; R4 exponential-type prices are init*exp
 R5 simulate() registers every field of one generator call; R6 every generator terminates; R7 no uninitialised column of a torch.empty
 output; R8 the quadratic-exponential variance step maps V >= 0 to V >= 0 (inductive sign certificate; Heston variance = that series).
 Third round: R10 buffer-registry histories of the primaries (last registration wins, one buffer per name, simulate replaces, re-configuration), the antithetic engine returns N rows.
-Rounds 4-5: R3e the library's own engines honour the dtype request (the requested dtype, else the global default)."""
+Rounds 4-5: R3e the library's own engines honour the dtype request (the requested dtype, else the global default).
+Round 7: R5 one call into the generator package per simulation, from simulate or a hook of it."""
 import ast
 
 import sympy as sp
